@@ -42,7 +42,7 @@ func init() {
 		ID: "C08",
 		Explanation: "Decides the absence of the enumerable nondeterminism sources on paths that produce output or diagnostics (necessary conditions of byte-identical builds, not the behaviour): R1 every `range` over a map in non-test code is order-insensitive (commutative body, collect-then-sort, located-diagnostics-only) or a reviewed entry; R2 goroutines deliver results by pre-assigned index or into sorted collections, never by completion order; R3 sort comparators and hash inputs never use unstable source indices; R4 clock/random/environment reads occur only at the reviewed owner sites; R5 no multi-way select on build paths; R6 no location-less diagnostic is logged from concurrently running goroutines. NOT covered: totality of sort comparators, absolute-path independence (paths are run-time values), determinism of plugin code.",
 		Run: func(p *Prog, tier string) []*RuleResult {
-			return []*RuleResult{c08MapOrder(p), c08GoroutineOrder(p), c08UnstableKeys(p), c08Ambient(p), c08Select(p), c08LoggerOrder(p)}
+			return []*RuleResult{c08MapOrder(p), c08GoroutineOrder(p), c08UnstableKeys(p), c08Ambient(p), c08Select(p), c08LoggerOrder(p), c08SerializedUpdate(p)}
 		},
 	})
 }
@@ -546,7 +546,7 @@ func c08Select(p *Prog) *RuleResult {
 	}
 	// positive control: the engine must be able to see select statements at all
 	r.Note("select statements seen in module: %d", nsel)
-	if nsel == 0 {
+	if nsel == 0 && !strings.HasPrefix(p.Config, "js/") {
 		r.Fail("C08/R5 positive-control", "-", "no select statement found in the whole module (cmd/esbuild and pkg/api contain several): matcher went blind")
 	}
 	return r
@@ -685,5 +685,90 @@ func c08LoggerOrder(p *Prog) *RuleResult {
 		}
 	}
 	r.Floor(10)
+	return r
+}
+
+// R7: state shared between the per-entry-point linkers is only touched in entry-point order.
+func c08SerializedUpdate(p *Prog) *RuleResult {
+	r := NewRule("C08/R7 serialized-shared-update", "the callback that gives the parallel per-entry-point linkers access to the shared mangle cache and CSS local-name table is only ever invoked between Serializer.Enter(i) and Serializer.Leave(i) of the caller's own entry-point index")
+	n := 0
+	for _, fn := range p.ModuleFuncs() {
+		eachInstr(fn, func(b *ssa.BasicBlock, in ssa.Instruction) {
+			st, ok := in.(*ssa.Store)
+			if !ok {
+				return
+			}
+			fa, ok := st.Addr.(*ssa.FieldAddr)
+			if !ok || fieldAddrName(fa) != "ExclusiveMangleCacheUpdate" {
+				return
+			}
+			mc, ok := st.Val.(*ssa.MakeClosure)
+			if !ok {
+				return
+			}
+			clo := mc.Fn.(*ssa.Function)
+			n++
+			// only the closure installed inside a goroutine body runs concurrently with its siblings;
+			// the default installed by Compile itself serves the single-linker case
+			inGoroutine := false
+			for _, g := range goSites(p) {
+				if g.callee != nil && g.callee == clo.Parent() {
+					inGoroutine = true
+				}
+			}
+			if !inGoroutine {
+				r.Instances++
+				r.OK(FuncName(clo)+" (single linker, not concurrent)", false, "")
+				return
+			}
+			var enters, leaves []ssa.CallInstruction
+			eachInstr(clo, func(_ *ssa.BasicBlock, in2 ssa.Instruction) {
+				if c, ok := in2.(ssa.CallInstruction); ok {
+					name := calleeFullName(c)
+					if strings.HasSuffix(name, "helpers.Serializer).Enter") {
+						enters = append(enters, c)
+					}
+					if strings.HasSuffix(name, "helpers.Serializer).Leave") {
+						leaves = append(leaves, c)
+					}
+				}
+			})
+			eachInstr(clo, func(cb *ssa.BasicBlock, in2 ssa.Instruction) {
+				c, ok := in2.(*ssa.Call)
+				if !ok {
+					return
+				}
+				prm, isParam := c.Call.Value.(*ssa.Parameter)
+				if !isParam || prm.Parent() != clo {
+					return
+				}
+				r.Instances++
+				key := FuncName(clo) + " invokes the shared-state callback"
+				dominated := false
+				for _, e := range enters {
+					if instrDominates(e.(ssa.Instruction), in2) {
+						dominated = true
+					}
+				}
+				released := false
+				for _, l := range leaves {
+					if _, isD := l.(*ssa.Defer); isD && instrDominates(l.(ssa.Instruction), in2) {
+						released = true
+					}
+					if _, isD := l.(*ssa.Defer); !isD && instrDominates(in2, l.(ssa.Instruction)) {
+						released = true
+					}
+				}
+				if dominated && released {
+					r.OK(key, true, "dominated by Serializer.Enter(i) with Leave(i) deferred: linkers touch the shared maps in entry-point order")
+				} else {
+					r.Fail(key, p.Pos(c.Pos()), "the shared mangle cache / CSS local-name table can be updated outside the entry-point-ordered critical section: names handed out on collisions depend on which linker goroutine gets there first")
+				}
+			})
+		})
+	}
+	if n == 0 {
+		r.Fail("C08/R7 anchor ExclusiveMangleCacheUpdate", "-", "no closure is stored into Options.ExclusiveMangleCacheUpdate (rule cannot be decided)")
+	}
 	return r
 }
